@@ -3,7 +3,9 @@
 
   disk backend (prefix d):
     dnew <logSize> <maxSize>          → ok
-    dsetrun <id> | ddelrun <id|->     → ok
+    dsetrun <id> | ddelrun <id|->     → ok      (several run-id directories: Model/StoreDirs.lean)
+    dverify <id,id,…>                 → ok <offset VerifyRunId returns>
+    drestart                          → ok      (clean stop, new Storer on the same base directory)
     drdbw <off> <size>                → ok
     drdba <hex>                       → ok | done
     drdbc | daofc | dgc               → ok
@@ -13,19 +15,23 @@
     dread <rid> <n>                   → data <hex> | eof | err
     dclose <rid>                      → ok
     dq <o1,o2,…>                      → run=… range=l,r rdb=l,s latest=x valid=<bits>
-    ddump                             → segs=left:rt:size:ref,… rdb=left:size:ref files=name:size,…
+    ddump                             → segs=left:rt:size:ref,… rdb=left:size:ref files=name:size,… dirs=id[name:size,…];…
   memory backend (prefix m): same shape, see `handleMem`.
   Every output line is prefixed with `#<op index> `.
 -/
 import GunYu.Model.Store
 import GunYu.Model.StoreFs
+import GunYu.Model.StoreDirs
+import GunYu.Model.StoreProgress
+import GunYu.Model.StoreMemRecv
 
 namespace GunYu.Drive.C05
 open GunYu GunYu.Store
 
 structure St where
-  disk : Disk := Disk.init 0 0
+  disk : DiskD := DiskD.init 0 0
   mem : Mem := Mem.init 0 0
+  recv : Option MRecv := none     -- ghost: what the snapshot writer received (Model/StoreMemRecv.lean)
   idx : Nat := 0
 
 def dash (s : String) : String := if s.isEmpty then "-" else s
@@ -68,7 +74,14 @@ def diskQuery (s : Disk) (probes : List Nat) : String :=
   let (rl, rs) := s.getRdb
   s!"run={dash s.runId} range={l},{r} rdb={rl},{rs} latest={s.latest} valid={bits (probes.map s.inRange)}"
 
-def diskDump (s : Disk) : String :=
+def diskFiles (s : Disk) : List String :=
+  sortStrs (s.all.map (fun g => s!"{g.left}.aof:{16 + g.data.length}") ++
+    (match s.rdb with
+     | some r => [s!"{r.left}_{r.size}.rdb{if r.final then "" else ".tmp"}:{r.data.length}"]
+     | none => []))
+
+def diskDump (x : DiskD) : String :=
+  let s := x.cur
   let segs := s.segs.map (fun g =>
       s!"{g.left}:{g.data.length}:{g.data.length}:{readerRefs s.readers g.left}") ++
     (match s.live with
@@ -77,58 +90,50 @@ def diskDump (s : Disk) : String :=
   let rdb := match s.rdb with
     | some r => s!"{r.left}:{r.size}:{rdbRef s.readers r}"
     | none => "-"
-  let files := s.all.map (fun g => s!"{g.left}.aof:{16 + g.data.length}") ++
-    (match s.rdb with
-     | some r => [s!"{r.left}_{r.size}.rdb{if r.final then "" else ".tmp"}:{r.data.length}"]
-     | none => [])
-  s!"segs={joinOr segs ","} rdb={rdb} files={joinOr (sortStrs files) ","}"
+  -- without a current id there is no current directory to list
+  let files := if s.runId.isEmpty then [] else diskFiles s
+  let dirs := sortStrs (x.dirs.map (fun e => s!"{e.1}[{joinOr (diskFiles e.2) ","}]"))
+  s!"segs={joinOr segs ","} rdb={rdb} files={joinOr files ","} dirs={joinOr dirs ";"}"
 
-/-- the harness' `dread`: `AofRotateReader.read` moves to the next file first
-    when the current one is exhausted and the next exists -/
-def diskRead (s : Disk) (rid n : Nat) : Disk × Out :=
-  let s1 := match findReader s.readers rid with
-    | some r => if s.canAdvance r then ((s.step (.advAcquire rid)).1.step (.advRelease rid)).1 else s
-    | none => s
-  s1.step (.read rid n)
+/-- operations on the current index -/
+def baseOp (x : DiskD) (o : DOp) : Option (DiskD × String) :=
+  let (x', out) := x.step (.base o); some (x', outStr out)
 
-/-- `dreadgc`: the collector runs inside the rotation step, after the reader's
-    close observer for the old segment (repaired order: the next segment is
-    already referenced then) -/
-def diskReadGc (s : Disk) (rid n : Nat) : Disk × Out :=
-  let s1 := match findReader s.readers rid with
-    | some r => if s.canAdvance r then
-        (((s.step (.advAcquire rid)).1.step (.advRelease rid)).1.step .gc).1 else s
-    | none => s
-  s1.step (.read rid n)
+def onCur (x : DiskD) (f : Disk → Disk × Out) : Option (DiskD × String) :=
+  let (c, out) := f x.cur; some ({ x with cur := c }, outStr out)
 
-def handleDisk (s : Disk) : List String → Option (Disk × String)
-  | ["dnew", a, b] => some (Disk.init a.toNat! b.toNat!, "ok")
-  | ["dsetrun", id] => let (s', o) := s.step (.setRunId id); some (s', outStr o)
-  | ["ddelrun", _] => let (s', o) := s.step .delRunId; some (s', outStr o)
-  | ["drdbw", a, b] => let (s', o) := s.step (.newRdbWriter a.toNat! b.toNat!); some (s', outStr o)
+def handleDisk (x : DiskD) : List String → Option (DiskD × String)
+  | ["dnew", a, b] => some (DiskD.init a.toNat! b.toNat!, "ok")
+  | ["dsetrun", id] => let (x', o) := x.step (.setRunId (undash id)); some (x', outStr o)
+  | ["ddelrun", id] => let (x', o) := x.step (.delRunId (undash id)); some (x', outStr o)
+  | ["dverify", ids] =>
+    let r := x.verifyRunId ((ids.splitOn ",").map undash)
+    some (r.1, s!"ok {r.2}")
+  | ["drestart"] => let (x', o) := x.step .restart; some (x', outStr o)
+  | ["drdbw", a, b] => baseOp x (.newRdbWriter a.toNat! b.toNat!)
   | ["drdba", h] =>
     match Hex.decode h with
-    | some bs => let (s', o) := s.step (.rdbAppend bs); some (s', outStr o)
+    | some bs => baseOp x (.rdbAppend bs)
     | none => none
-  | ["drdbc"] => let (s', o) := s.step .rdbClose; some (s', outStr o)
-  | ["daofw", a] => let (s', o) := s.step (.newAofWriter a.toNat!); some (s', outStr o)
+  | ["drdbc"] => baseOp x .rdbClose
+  | ["daofw", a] => baseOp x (.newAofWriter a.toNat!)
   | ["daofa", h] =>
     match Hex.decode h with
-    | some bs => let (s', o) := s.step (.aofAppend bs); some (s', outStr o)
+    | some bs => baseOp x (.aofAppend bs)
     | none => none
-  | ["daofc"] => let (s', o) := s.step .aofClose; some (s', outStr o)
-  | ["dgc"] => let (s', o) := s.step .gc; some (s', outStr o)
+  | ["daofc"] => baseOp x .aofClose
+  | ["dgc"] => baseOp x .gc
   | ["dopen", rid, off, crc] =>
-    let crcOk := crc == "0" || (match s.rdb with
+    let crcOk := crc == "0" || (match x.cur.rdb with
       | some r => StoreFs.rdbFooterOk r.data
       | none => true)
-    let (s', o) := s.step (.openReader rid.toNat! off.toNat! crcOk); some (s', outStr o)
-  | ["dread", rid, n] => let (s', o) := diskRead s rid.toNat! n.toNat!; some (s', outStr o)
-  | ["dreadgc", rid, n] => let (s', o) := diskReadGc s rid.toNat! n.toNat!; some (s', outStr o)
-  | ["dclose", rid] => let (s', o) := s.step (.closeReader rid.toNat!); some (s', outStr o)
-  | ["dq", ps] => some (s, diskQuery s (parseNats ps))
-  | ["dq"] => some (s, diskQuery s [])
-  | ["ddump"] => some (s, diskDump s)
+    baseOp x (.openReader rid.toNat! off.toNat! crcOk)
+  | ["dread", rid, n] => onCur x (fun s => s.follow rid.toNat! n.toNat!)
+  | ["dreadgc", rid, n] => onCur x (fun s => s.followGc rid.toNat! n.toNat!)
+  | ["dclose", rid] => baseOp x (.closeReader rid.toNat!)
+  | ["dq", ps] => some (x, diskQuery x.cur (parseNats ps))
+  | ["dq"] => some (x, diskQuery x.cur [])
+  | ["ddump"] => some (x, diskDump x)
   | _ => none
 
 /-! ### memory -/
@@ -148,60 +153,75 @@ def memQuery (s : Mem) (probes : List Nat) : String :=
   let o := if s.isValidOffset "other" right then 1 else 0
   s!"run={dash s.runId} range={l},{r} rdb={rl},{rs} sp={dash sp1},{so1} sp2={dash sp2},{so2} q={q} other={o} valid={bits (probes.map (fun p => s.isValidOffset s.runId (Int.ofNat p)))}"
 
-def memDump (s : Mem) : String :=
+def recvStr (s : Mem) (g : Option MRecv) : String :=
+  -- printed while a snapshot is offered: the ghost's record of the announcement and of the bytes received
+  if s.rdbOffered.isSome then
+    match g with
+    | some x => s!"{x.left}:{x.size}:{x.bytes.length}:{(fnv64 x.bytes).toNat}"
+    | none => "none"
+  else "-"
+
+def memDump (s : Mem) (g : Option MRecv) : String :=
   let rdb := match s.rdb with
     | some r => s!"{r.left}:{r.size}:{if r.replayable then 1 else 0}[{memSegs s.readers r.segs}]"
     | none => "-"
   let rw := match s.rdb with
     | some r => if r.writing then 1 else 0
     | none => 0
-  s!"segs={memSegs s.readers s.segs} rdb={rdb} total={s.total} aw={if s.aofW.isSome then 1 else 0} rw={rw}"
+  s!"segs={memSegs s.readers s.segs} rdb={rdb} total={s.total} aw={if s.aofW.isSome then 1 else 0} rw={rw} recv={recvStr s g}"
 
-def handleMem (s : Mem) : List String → Option (Mem × String)
-  | ["mnew", a, b] => some (Mem.init a.toNat! b.toNat!, "ok")
-  | ["msetrun", id] => let (s', o) := s.step (.setRunId id); some (s'.settle, outStr o)
-  | ["mdelrun", id] => let (s', o) := s.step (.delRunId (undash id)); some (s'.settle, outStr o)
-  | ["mrdbw", a, b] => let (s', o) := s.step (.newRdbWriter a.toNat! b.toNat!); some (s'.settle, outStr o)
+/-- one operation, then every goroutine runs until blocked; the ghost is carried along -/
+def stepG (s : Mem) (g : Option MRecv) (op : MOp) : Mem × Option MRecv × Out :=
+  let (s1, o) := s.step op
+  let g1 := mRecvStep g s op
+  let (s2, g2) := s1.settleG g1
+  (s2, g2, o)
+
+def handleMem (s : Mem) (g : Option MRecv) : List String → Option (Mem × Option MRecv × String)
+  | ["mnew", a, b] => some (Mem.init a.toNat! b.toNat!, none, "ok")
+  | ["msetrun", id] => let (s', g', o) := stepG s g (.setRunId id); some (s', g', outStr o)
+  | ["mdelrun", id] => let (s', g', o) := stepG s g (.delRunId (undash id)); some (s', g', outStr o)
+  | ["mrdbw", a, b] => let (s', g', o) := stepG s g (.newRdbWriter a.toNat! b.toNat!); some (s', g', outStr o)
   | ["mrdba", h] =>
     match Hex.decode h with
     | some bs =>
       -- the harness looks at the writer after every goroutine has settled: an
       -- append that had to wait but got its space meanwhile shows as completed
-      let (s', o) := s.step (.rdbAppend bs)
-      let s2 := s'.settle
+      let (s2, g2, o) := stepG s g (.rdbAppend bs)
       let o' := match o with
         | .blocked _ => if s2.pendR.isNone then
             (match s2.rdb with
              | some r => if r.writing then Out.ok else Out.done
              | none => Out.done) else o
         | _ => o
-      some (s2, outStr o')
+      some (s2, g2, outStr o')
     | none => none
-  | ["mrdbc"] => let (s', o) := s.step .rdbClose; some (s'.settle, outStr o)
-  | ["mrdbf"] => let (s', o) := s.step .rdbFail; some (s'.settle, outStr o)
-  | ["maofw", a] => let (s', o) := s.step (.newAofWriter a.toNat!); some (s'.settle, outStr o)
+  | ["mrdbc"] => let (s', g', o) := stepG s g .rdbClose; some (s', g', outStr o)
+  | ["mrdbf"] => let (s', g', o) := stepG s g .rdbFail; some (s', g', outStr o)
+  | ["maofw", a] => let (s', g', o) := stepG s g (.newAofWriter a.toNat!); some (s', g', outStr o)
   | ["maofa", h] =>
     match Hex.decode h with
     | some bs =>
-      let (s', o) := s.step (.aofAppend bs)
-      let s2 := s'.settle
+      let (s2, g2, o) := stepG s g (.aofAppend bs)
       let o' := match o with
         | .blocked _ => if s2.pendA.isNone then Out.ok else o
         | _ => o
-      some (s2, outStr o')
+      some (s2, g2, outStr o')
     | none => none
-  | ["maofc"] => let (s', o) := s.step .aofClose; some (s'.settle, outStr o)
-  | ["mopen", rid, off] => let (s', o) := s.step (.openReader rid.toNat! off.toNat!); some (s'.settle, outStr o)
-  | ["mstart", rid] => let (s', o) := s.step (.startReader rid.toNat!); some (s'.settle, outStr o)
-  | ["mread", rid, n] => let (s', o) := s.settle.step (.consume rid.toNat! n.toNat!); some (s'.settle, outStr o)
-  | ["mclose", rid] => let (s', o) := s.step (.closeReader rid.toNat!); some (s'.settle, outStr o)
-  | ["mq", ps] => some (s, memQuery s (parseNats ps))
-  | ["mq"] => some (s, memQuery s [])
-  | ["mdump"] => some (s, memDump s)
+  | ["maofc"] => let (s', g', o) := stepG s g .aofClose; some (s', g', outStr o)
+  | ["mopen", rid, off] => let (s', g', o) := stepG s g (.openReader rid.toNat! off.toNat!); some (s', g', outStr o)
+  | ["mstart", rid] => let (s', g', o) := stepG s g (.startReader rid.toNat!); some (s', g', outStr o)
+  | ["mread", rid, n] =>
+    let (s0, g0) := s.settleG g
+    let (s', g', o) := stepG s0 g0 (.consume rid.toNat! n.toNat!); some (s', g', outStr o)
+  | ["mclose", rid] => let (s', g', o) := stepG s g (.closeReader rid.toNat!); some (s', g', outStr o)
+  | ["mq", ps] => some (s, g, memQuery s (parseNats ps))
+  | ["mq"] => some (s, g, memQuery s [])
+  | ["mdump"] => some (s, g, memDump s g)
   -- C05chan: references held when `nOpen` readers are open and the writer holds
   -- `w` itself — in the model only open readers (`DReader.holds` / `mRefs`) and the
   -- writer hold references
-  | ["c5refs", _, nOpen, w] => some (s, s!"refs {nOpen.toNat! + w.toNat!}")
+  | ["c5refs", _, nOpen, w] => some (s, g, s!"refs {nOpen.toNat! + w.toNat!}")
   | _ => none
 
 def stepLine (st : St) (line : String) : St × List String :=
@@ -212,8 +232,8 @@ def stepLine (st : St) (line : String) : St × List String :=
   match handleDisk st.disk toks with
   | some (d, o) => ({ st1 with disk := d }, [s!"#{i} {o}"])
   | none =>
-    match handleMem st.mem toks with
-    | some (m, o) => ({ st1 with mem := m }, [s!"#{i} {o}"])
+    match handleMem st.mem st.recv toks with
+    | some (m, g, o) => ({ st1 with mem := m, recv := g }, [s!"#{i} {o}"])
     | none => (st1, [s!"#{i} bad-op"])
 
 partial def loop (st : St) (hin hout : IO.FS.Stream) : IO Unit := do
